@@ -180,7 +180,7 @@ def checkSlice (size : Nat) (start stop : Int) : R Unit :=
   else .ok ()
 
 /-- the loop of `comp.__getitem__` over the covered range, with the re-entrant operations as parameters. -/
-def compGetLoop (gi : Expr → Int → Int → R Expr) (si : Expr → Int → Int → Expr → R Expr)
+def compGetLoop (gi : Expr → Nat → Nat → R Expr) (si : Expr → Nat → Nat → Expr → R Expr)
     (parts : List Part) (stop l : Nat) : Nat → Nat → Nat → Expr → R Expr
   | 0, _, _, res => .ok res
   | n + 1, b, start, res =>
@@ -196,24 +196,47 @@ def compGetLoop (gi : Expr → Int → Int → R Expr) (si : Expr → Int → In
             let res ← si res b (b + d) piece
             compGetLoop gi si parts stop l n (b + d) (start + d) res
 
+/-- `cut`, head piece: `parts[(lo, sta)] = nv[0 : sta - lo]` when the popped part starts before `sta`. -/
+def cutHead (gi : Expr → Nat → Nat → R Expr) (sta lo : Nat) (nv : Expr) (ps : List Part) : R (List Part) :=
+  if lo < sta then
+    match gi nv 0 (sta - lo) with
+    | .ok h => .ok (assignKey lo sta h ps)
+    | .error e => .error e
+  else .ok ps
+
+/-- `cut`, tail piece: `parts[(sto, hi)] = nv[sto - lo : hi - lo]` when the popped part ends after `sto`. -/
+def cutTail (gi : Expr → Nat → Nat → R Expr) (sto lo hi : Nat) (nv : Expr) (ps : List Part) : R (List Part) :=
+  if hi > sto then
+    match gi nv (sto - lo) (hi - lo) with
+    | .ok t => .ok (assignKey sto hi t ps)
+    | .error e => .error e
+  else .ok ps
+
 /-- `cut` after `parts[(sta,sto)] = v` was appended: every *old* part overlapping `[sta,sto)` (in position
     order) is popped and its head / tail outside the range re-inserted. -/
-def cutLoop (gi : Expr → Int → Int → R Expr) (sta sto : Nat) : List Part → List Part → R (List Part)
+def cutLoop (gi : Expr → Nat → Nat → R Expr) (sta sto : Nat) : List Part → List Part → R (List Part)
   | [], ps => .ok ps
-  | (lo, hi, nv) :: tl, ps => do
-      let ps := popKey lo hi ps
-      let ps ← if lo < sta then do
-                  let h ← gi nv 0 (sta - lo)
-                  pure (assignKey lo sta h ps)
-               else pure ps
-      let ps ← if hi > sto then do
-                  let t ← gi nv (sto - lo) (hi - lo)
-                  pure (assignKey sto hi t ps)
-               else pure ps
-      cutLoop gi sta sto tl ps
+  | (lo, hi, nv) :: tl, ps =>
+      match cutHead gi sta lo nv (popKey lo hi ps) with
+      | .error e => .error e
+      | .ok ps2 =>
+        match cutTail gi sto lo hi nv ps2 with
+        | .error e => .error e
+        | .ok ps3 => cutLoop gi sta sto tl ps3
 
 def overlapping (sta sto : Nat) (ps : List Part) : List Part :=
   sortParts (ps.filter (fun p => p.1 < sto && sta < p.2.1))
+
+/-- `parts[(sta,sto)] = v` followed by `cut`: the non-`comp` branch of `comp.__setitem__`. -/
+def setPart (gi : Expr → Nat → Nat → R Expr) (sta sto : Nat) (v : Expr) (parts : List Part) : R (List Part) :=
+  match findKey sta sto parts with
+  | some _ => .ok (assignKey sta sto v parts)
+  | none => cutLoop gi sta sto (overlapping sta sto parts) (parts ++ [(sta, sto, v)])
+
+/-- the in-place `x.sf = False` seen through a node `(x op r)` that holds the constant `x` as left operand -/
+def clearLeftSf : Expr → Expr
+  | .op to (.cst tv ts _) tr tsz tsf tp => .op to (.cst tv ts false) tr tsz tsf tp
+  | e => e
 
 /-- `[bit0] * n` -/
 def bit0s (n : Nat) : List Expr := List.replicate n bit0
@@ -378,15 +401,28 @@ def eqn1 : Nat → Op → Expr → Nat → Bool → Nat → R Expr
         else .ok (.uop o r size sf prop)
     | _ => .ok (.uop o r size sf prop)
 
-/-- `eqn2_helpers(e, bitslice, widening)` for `e = op(o, l, r)` with attributes `size sf prop` -/
+/-- `eqn2_helpers(e, bitslice, widening)` for `e = op(o, l, r)` with attributes `size sf prop`:
+    complexity threshold, top absorption, `+`/`-` normalisation (`eqn2norm`), then the rules for a constant
+    right operand (`eqn2cst`, `eqn2snd`) and the final rules (`eqn2tail`). -/
 def eqn2 : Nat → Opts → Op → Expr → Expr → Nat → Bool → Nat → R Expr
   | 0, _, _, _, _, _, _, _ => .error .fuel
   | fuel + 1, opts, o, l, r, size, sf, prop => do
-    -- complexity threshold
     let r := if cfg.cplx r then mkTop r.size else r
     let l := if cfg.cplx l then mkTop l.size else l
     if r.isTop || l.isTop then return mkTop size
-    -- ((a ± c) ∘ r)  ⇒  ((a ∘ r) ± c)
+    let (o, l, r) ← eqn2norm fuel o l r
+    match r with
+    | .cst rv rs rf =>
+      match ← eqn2cst fuel opts o l rv rs rf size sf with
+      | some res => return res
+      | none => eqn2snd fuel opts o l rv rs rf size sf prop
+    | _ => eqn2tail fuel opts o l r size sf prop
+
+/-- the `+`/`-` normalisation steps of `eqn2_helpers`:
+    `((a ± c) ∘ r) ⇒ ((a ∘ r) ± c)`, `(l + (-r)) ⇒ (l - r)`, `(l ± (a ± c)) ⇒ ((l ± a) ± c)`. -/
+def eqn2norm : Nat → Op → Expr → Expr → R (Op × Expr × Expr)
+  | 0, _, _, _ => .error .fuel
+  | fuel + 1, o, l, r => do
     let (o, l, r) ← (match l with
       | .op lo ll lr _ _ _ =>
           if lr.isCst then
@@ -397,12 +433,10 @@ def eqn2 : Nat → Opts → Op → Expr → Expr → Nat → Bool → Nat → R 
             | none => pure (o, l, r)
           else pure (o, l, r)
       | _ => pure (o, l, r) : R (Op × Expr × Expr))
-    -- (l + (-r))  ⇒  (l - r)
     let (o, r) := (match r with
       | .uop ro rr _ _ _ => if o == Op.add && ro == Op.sub then (Op.sub, rr) else (o, r)
       | _ => (o, r) : Op × Expr)
-    -- (l ± (a ± c))  ⇒  ((l ± a) ± c)
-    let (o, l, r) ← (match r with
+    (match r with
       | .op ro rl rr _ _ _ =>
           if rr.isCst then
             match Op.pm o ro with
@@ -418,106 +452,108 @@ def eqn2 : Nat → Opts → Op → Expr → Expr → Nat → Bool → Nat → R 
             | none => pure (o, l, r)
           else pure (o, l, r)
       | _ => pure (o, l, r) : R (Op × Expr × Expr))
-    let e := Expr.op o l r size sf prop
-    -- (l op cst)
-    match r with
-    | .cst rv rs rf =>
-      let value := cstValue rv rs rf
-      -- first chain of the code: returns `some result` or falls through
-      let first : R (Option Expr) := (do
-        if value = 0 then
-          if o == Op.or || o == Op.xor || o == Op.add || o == Op.sub || o == Op.lsr || o == Op.lsl
-              || o == Op.ror || o == Op.rol then return some l
-          if o == Op.and || o == Op.mul || o == Op.mul2 then return some (cst 0 size false)
-          if o == Op.eq && l.isExt then return some bit0
-          if o == Op.neq && l.isExt then return some bit1
-          return none
-        else if value = 1 && (o == Op.mul || o == Op.div) then return some l
-        else if value = 1 && o == Op.mul2 then return some (← extendExp fuel l.sf l size)
-        else
-          match (if o == Op.and then maskBounds value else none) with
-          | some (i1, i2) => do
-              let c := Expr.comp size sf []
-              let c ← setitem fuel c 0 size (cst 0 size false)
-              let piece ← getitem fuel l i1 (i2 + 1)
-              let c ← setitem fuel c i1 (i2 + 1) piece
-              return some (← simplify fuel {} c)
-          | none =>
-            if opts.bitslice && (o == Op.and || o == Op.or || o == Op.xor) then do
-              let bits ← (pyRange 0 size).mapM (fun i => do
-                let a ← getitem fuel l i (i + 1)
-                let b ← getitem fuel r i (i + 1)
-                callOp fuel o a b)
-              let c ← composer fuel bits
-              return some (if c.isCmp then c.setSf sf else c)
-            else if (o == Op.lsl || o == Op.lsr) && rv ≥ l.size then return some (cst 0 size false)
-            else if opts.bitslice && o == Op.lsl then do
-              let bits ← (pyRange 0 ((size : Int) - (rv : Int))).mapM (fun i => getitem fuel l i (i + 1))
-              let c ← composer fuel (bit0s rv ++ bits)
-              return some (if c.isCmp then c.setSf sf else c)
-            else if opts.bitslice && o == Op.lsr then do
-              let bits ← (pyRange rv size).mapM (fun i => getitem fuel l i (i + 1))
-              let c ← composer fuel (bits ++ bit0s rv)
-              return some (if c.isCmp then c.setSf sf else c)
-            else if o == Op.lsl then do
-              let n := l.size
-              let c := Expr.comp n sf []
-              let c ← setitem fuel c 0 n (cst 0 n false)
-              let piece ← getitem fuel l 0 ((n : Int) - (rv : Int))
-              let c ← setitem fuel c rv n piece
-              return some (← simplify fuel {} c)
-            else if o == Op.lsr then do
-              let n := l.size
-              let c := Expr.comp n sf []
-              let c ← setitem fuel c 0 n (cst 0 n false)
-              let piece ← getitem fuel l rv n
-              let c ← setitem fuel c 0 ((n : Int) - (rv : Int)) piece
-              return some (← simplify fuel {} c)
-            else return none)
-      match ← first with
-      | some res => return res
+
+/-- first chain of rules for `e = (l o cst(rv, rs, rf))`; `none` = no rule returned. -/
+def eqn2cst : Nat → Opts → Op → Expr → Nat → Nat → Bool → Nat → Bool → R (Option Expr)
+  | 0, _, _, _, _, _, _, _, _ => .error .fuel
+  | fuel + 1, opts, o, l, rv, rs, rf, size, sf => do
+    let r := Expr.cst rv rs rf
+    let value := cstValue rv rs rf
+    if value = 0 then
+      if o == Op.or || o == Op.xor || o == Op.add || o == Op.sub || o == Op.lsr || o == Op.lsl
+          || o == Op.ror || o == Op.rol then return some l
+      if o == Op.and || o == Op.mul || o == Op.mul2 then return some (cst 0 size false)
+      if o == Op.eq && l.isExt then return some bit0
+      if o == Op.neq && l.isExt then return some bit1
+      return none
+    else if value = 1 && (o == Op.mul || o == Op.div) then return some l
+    else if value = 1 && o == Op.mul2 then return some (← extendExp fuel l.sf l size)
+    else
+      match (if o == Op.and then maskBounds value else none) with
+      | some (i1, i2) => do
+          let c := Expr.comp size sf []
+          let c ← setitem fuel c 0 size (cst 0 size false)
+          let piece ← getitem fuel l i1 (i2 + 1)
+          let c ← setitem fuel c i1 (i2 + 1) piece
+          return some (← simplify fuel {} c)
       | none =>
-        -- second chain: by the kind of `l`
-        match l with
-        | .op lo ll lr _ _ _ =>
-            match Op.pm o lo with
-            | some x =>
-                if lr.isCst then do
-                  let cc ← api fuel x lr r
-                  return .op lo ll cc size sf prop
-                else return e
-            | none =>
-                if rs == 1 && o == Op.eq then
-                  if value = 1 then return l else return ← apiNot fuel l
-                else if rs == 1 && o == Op.neq then
-                  if value = 1 then return ← apiNot fuel l else return l
-                else eqn2tail fuel opts o l r size sf prop
-        | .uop lo lr _ _ _ =>
-            match Op.pm o lo with
-            | some x =>
-                if lr.isCst then do
-                  let cc ← api fuel x lr r
-                  return .op lo l cc size sf prop
-                else return e
-            | none =>
-                if rs == 1 && o == Op.eq then
-                  if value = 1 then return l else return ← apiNot fuel l
-                else if rs == 1 && o == Op.neq then
-                  if value = 1 then return ← apiNot fuel l else return l
-                else eqn2tail fuel opts o l r size sf prop
-        | .ptr .. =>
-            if o == Op.sub || o == Op.add then throw .unmodelled
+        if opts.bitslice && (o == Op.and || o == Op.or || o == Op.xor) then do
+          let bits ← (pyRange 0 size).mapM (fun i => do
+            let a ← getitem fuel l i (i + 1)
+            let b ← getitem fuel r i (i + 1)
+            callOp fuel o a b)
+          let c ← composer fuel bits
+          return some (if c.isCmp then c.setSf sf else c)
+        else if (o == Op.lsl || o == Op.lsr) && rv ≥ l.size then return some (cst 0 size false)
+        else if opts.bitslice && o == Op.lsl then do
+          let bits ← (pyRange 0 ((size : Int) - (rv : Int))).mapM (fun i => getitem fuel l i (i + 1))
+          let c ← composer fuel (bit0s rv ++ bits)
+          return some (if c.isCmp then c.setSf sf else c)
+        else if opts.bitslice && o == Op.lsr then do
+          let bits ← (pyRange rv size).mapM (fun i => getitem fuel l i (i + 1))
+          let c ← composer fuel (bits ++ bit0s rv)
+          return some (if c.isCmp then c.setSf sf else c)
+        else if o == Op.lsl then do
+          let n := l.size
+          let c := Expr.comp n sf []
+          let c ← setitem fuel c 0 n (cst 0 n false)
+          let piece ← getitem fuel l 0 ((n : Int) - (rv : Int))
+          let c ← setitem fuel c rv n piece
+          return some (← simplify fuel {} c)
+        else if o == Op.lsr then do
+          let n := l.size
+          let c := Expr.comp n sf []
+          let c ← setitem fuel c 0 n (cst 0 n false)
+          let piece ← getitem fuel l rv n
+          let c ← setitem fuel c 0 ((n : Int) - (rv : Int)) piece
+          return some (← simplify fuel {} c)
+        else return none
+
+/-- second chain of rules for `e = (l o cst(rv, rs, rf))`: by the kind of `l`. -/
+def eqn2snd : Nat → Opts → Op → Expr → Nat → Nat → Bool → Nat → Bool → Nat → R Expr
+  | 0, _, _, _, _, _, _, _, _, _ => .error .fuel
+  | fuel + 1, opts, o, l, rv, rs, rf, size, sf, prop =>
+    let r := Expr.cst rv rs rf
+    let value := cstValue rv rs rf
+    match l with
+    | .op lo ll lr _ _ _ =>
+        match Op.pm o lo with
+        | some x =>
+            if lr.isCst then do
+              let cc ← api fuel x lr r
+              return .op lo ll cc size sf prop
+            else return .op o l r size sf prop
+        | none =>
+            if rs == 1 && o == Op.eq then
+              if value = 1 then return l else apiNot fuel l
+            else if rs == 1 && o == Op.neq then
+              if value = 1 then apiNot fuel l else return l
             else eqn2tail fuel opts o l r size sf prop
-        | .comp lsize _ lparts =>
-            if o == Op.and || o == Op.or || o == Op.xor then do
-              let cc ← lparts.foldlM (fun (cc : Expr) (p : Part) => do
-                let rp ← getitem fuel r p.1 p.2.1
-                let v ← callOp fuel o p.2.2 rp
-                setitem fuel cc p.1 p.2.1 v) (Expr.comp lsize sf [])
-              simplify fuel { bitslice := opts.bitslice } cc
+    | .uop lo lr _ _ _ =>
+        match Op.pm o lo with
+        | some x =>
+            if lr.isCst then do
+              let cc ← api fuel x lr r
+              return .op lo l cc size sf prop
+            else return .op o l r size sf prop
+        | none =>
+            if rs == 1 && o == Op.eq then
+              if value = 1 then return l else apiNot fuel l
+            else if rs == 1 && o == Op.neq then
+              if value = 1 then apiNot fuel l else return l
             else eqn2tail fuel opts o l r size sf prop
-        | .cst .. => callOp fuel o l r
-        | _ => eqn2tail fuel opts o l r size sf prop
+    | .ptr .. =>
+        if o == Op.sub || o == Op.add then throw .unmodelled
+        else eqn2tail fuel opts o l r size sf prop
+    | .comp lsize _ lparts =>
+        if o == Op.and || o == Op.or || o == Op.xor then do
+          let cc ← lparts.foldlM (fun (cc : Expr) (p : Part) => do
+            let rp ← getitem fuel r p.1 p.2.1
+            let v ← callOp fuel o p.2.2 rp
+            setitem fuel cc p.1 p.2.1 v) (Expr.comp lsize sf [])
+          simplify fuel { bitslice := opts.bitslice } cc
+        else eqn2tail fuel opts o l r size sf prop
+    | .cst .. => callOp fuel o l r
     | _ => eqn2tail fuel opts o l r size sf prop
 
 /-- the end of `eqn2_helpers`: `vec` distribution and the `x op x` rules (decided by rendering). -/
@@ -623,32 +659,34 @@ def helperCmp : Nat → Op → Expr → Expr → R Expr
       api fuel (if o == Op.ltu then Op.lt else Op.ge) (x.setSf false) (y.setSf false)
     else mkOp o x y
 
-/-- `ror(x, n)` / `rol(x, n)` -/
+/-- `ror(x, n)` / `rol(x, n)` (with the repaired constant case: amount reduced modulo the width) -/
 def helperRot : Nat → Op → Expr → Expr → R Expr
   | 0, _, _, _ => .error .fuel
   | fuel + 1, o, x, n =>
-    if x.isCst && n.isCst then do
-      -- both constants: the amount is reduced modulo the width with Python integers
+    if x.isCst && n.isCst then
+      -- both constants: `m = n.v % x.size`, then `x >> m | x << (size - m)` resp. `x << m | x >> (size - m)`
       let m : Nat := (match n with | .cst nv _ _ => nv % x.size | _ => 0)
-      let (o1, o2) := if o == Op.ror then (Op.lsr, Op.lsl) else (Op.lsl, Op.lsr)
-      let t1 ← api fuel o1 x (mkCst (m : Int) x.size)
-      let x := x.setSf false
-      let t2 ← api fuel o2 (if o == Op.ror then x else x) (mkCst ((x.size - m : Nat) : Int) x.size)
-      api fuel Op.or t1 t2
-    else if x.isCst then do
-      let (o1, o2) := if o == Op.ror then (Op.lsr, Op.lsl) else (Op.lsl, Op.lsr)
-      let t1 ← api fuel o1 x n
-      -- `x >> …` clears `x.sf` in place; for `rol` the node `x << n` built just before still holds the
-      -- same object `x` as its left operand
-      let t1 := if o == Op.rol then
-                  (match t1 with
-                   | .op to (.cst tv ts _) tr tsz tsf tp => Expr.op to (.cst tv ts false) tr tsz tsf tp
-                   | _ => t1)
-                else t1
-      let x := if o == Op.ror then x.setSf false else x
-      let k ← api fuel Op.sub (mkCst x.size n.size) n
-      let t2 ← api fuel o2 x k
-      api fuel Op.or t1 t2
+      if o == Op.ror then do
+        let t1 ← api fuel Op.lsr x (mkCst (m : Int) x.size)
+        let t2 ← api fuel Op.lsl (x.setSf false) (mkCst ((x.size - m : Nat) : Int) x.size)
+        api fuel Op.or t1 t2
+      else do
+        let t1 ← api fuel Op.lsl x (mkCst (m : Int) x.size)
+        let t2 ← api fuel Op.lsr x (mkCst ((x.size - m : Nat) : Int) x.size)
+        api fuel Op.or t1 t2
+    else if x.isCst then
+      -- `x >> n | x << (x.size - n)`; `x >> …` clears `x.sf` in place
+      if o == Op.ror then do
+        let t1 ← api fuel Op.lsr x n
+        let k ← api fuel Op.sub (mkCst (x.size : Int) n.size) n
+        let t2 ← api fuel Op.lsl (x.setSf false) k
+        api fuel Op.or t1 t2
+      else do
+        let t1 ← api fuel Op.lsl x n
+        let k ← api fuel Op.sub (mkCst (x.size : Int) n.size) n
+        let t2 ← api fuel Op.lsr x k
+        -- for `rol` the node `x << n` built first still holds the object `x` as its left operand
+        api fuel Op.or (clearLeftSf t1) t2
     else mkOp o x n
 
 /-- `x[start:stop]` -/
@@ -666,7 +704,8 @@ def getitem : Nat → Expr → Int → Int → R Expr
         | none =>
           if sta == 0 && sto == size then return x
           let l := sto - sta
-          let res ← compGetLoop (getitem fuel) (setitem fuel) parts sto l l 0 sta (Expr.comp l sf [])
+          let res ← compGetLoop (fun y a b => getitem fuel y (a : Int) (b : Int))
+                      (fun c a b v => setitem fuel c (a : Int) (b : Int) v) parts sto l l 0 sta (Expr.comp l sf [])
           match res with
           | .comp rs rf rparts =>
               let rparts := restruct rparts
@@ -726,11 +765,9 @@ def setitem : Nat → Expr → Int → Int → Expr → R Expr
       | .comp _ _ vparts =>
           vparts.foldlM (fun (c : Expr) (p : Part) => setitem fuel c (sta + p.1) (sta + p.2.1) p.2.2) c
       | _ =>
-        match findKey sta sto parts with
-        | some _ => return .comp size sf (assignKey sta sto v parts)
-        | none => do
-            let ps ← cutLoop (getitem fuel) sta sto (overlapping sta sto parts) (parts ++ [(sta, sto, v)])
-            return .comp size sf ps
+        match setPart (fun y a b => getitem fuel y (a : Int) (b : Int)) sta sto v parts with
+        | .ok ps => return .comp size sf ps
+        | .error e => throw e
     | _ => throw .unmodelled
 
 /-- `composer(parts)` -/
